@@ -424,14 +424,23 @@ class Phase(Angle):
         For the 'f' format, precision is kept, and the unit is suppressed.
         For everything else, the Quantity formatter is used.
         """
-        if format_spec.endswith("f") and self.isscalar:
+        if format_spec.endswith(("f", "F")) and self.isscalar:
             # Check that formatting works at all...
             format(0.0, format_spec)
             # Format the exact sum of the two doubles; Decimal follows the same
-            # format specification as float (sign, fill, width, grouping, ...).
-            if not re.fullmatch(r"(?:.?[<>=^])?[^.]*\.\d+f", format_spec, re.DOTALL):
+            # format specification as float (sign, fill, width, grouping, ...),
+            # except for the '#' flag and '_' as thousands separator.
+            head, alternate, underscore = format_spec[:-1], False, False
+            match = re.fullmatch(
+                r"((?:.?[<>=^])?[-+ ]?z?)(#?)(0?\d*)(_?)(,?(?:\.\d+)?)", head, re.DOTALL
+            )
+            if match:
+                alternate, underscore = bool(match.group(2)), bool(match.group(4))
+                head = match.group(1) + match.group(3) + ("," if underscore else "") + match.group(5)
+            format_spec = head + format_spec[-1]
+            if not re.fullmatch(r"(?:.?[<>=^])?[^.]*\.\d+[fF]", format_spec, re.DOTALL):
                 # Six decimals by default, as for floats.
-                format_spec = format_spec[:-1] + ".6f"
+                format_spec = format_spec[:-1] + ".6" + format_spec[-1]
             count, frac = self["int"].value, self["frac"].value
             if self.imaginary:
                 count, frac = count.imag, frac.imag
@@ -439,7 +448,14 @@ class Phase(Angle):
                 value = Decimal(float(count)) + Decimal(float(frac))
                 if value == 0 and not (count + frac < 0):
                     value = abs(value)
-                return format(value, format_spec) + ("j" if self.imaginary else "")
+                text = format(value, format_spec)
+            if underscore:
+                text = text.replace(",", "_")
+            if alternate and "." not in text.strip("."):
+                # (the alternate form always shows the decimal point)
+                digits = re.search(r"\d(?=\D*$)", text)
+                text = text[: digits.end()] + "." + text[digits.end() :]
+            return text + ("j" if self.imaginary else "")
 
         return self.cycle.__format__(format_spec)
 
